@@ -13,6 +13,8 @@ SPEC = dict(
     mirsmt=[dict(name="wait_for_child_done", crate="libwild", crate_dir="libwild", module="subprocess", function="wait_for_child_done",
                  features="fork", timeout=2400),
             dict(name="subprocess_result", kind="cfg", crate="libwild", crate_dir="libwild", module="subprocess", function="subprocess_result",
+                 features="fork", timeout=2400),
+            dict(name="call_graph", kind="callgraph", crate="libwild", crate_dir="libwild", module="subprocess", function="*",
                  features="fork", timeout=2400)],
     functions_encoded=["subprocess::wait_for_child_done (MIR after PostAnalysisNormalize)", "subprocess::subprocess_result (normal-return CFG of the MIR)"],
     bounds="loop-free: all values of fread's result, waitpid's result in {-1, pid}, all 2^32 wait statuses, any pid > 0",
